@@ -11,7 +11,7 @@ from ..symx import Skip, SymInt, explore, zint
 
 PID = "C06"
 LEVEL = "other"
-LEAVES = {"X": ("a", "b", "c"), "Y": ("a", "b", "c"), "Z": ("a", "d"), "W": ()}
+LEAVES = {"X": ("a", "b", "c"), "Y": ("a", "b", "c"), "Z": ("a", "d"), "W": (), "Q": ("d", "e")}
 SPECIAL = {"I": ("identity", ()), "0": ("doomed", ("a", "b", "c"))}
 LEAFCOLS = {**LEAVES, **{k: v[1] for k, v in SPECIAL.items()}}
 STD = None
@@ -61,6 +61,13 @@ def shapes(tier, seed):
                     for r in ("Z", "I", "W", "0"):
                         bins.append((("join",) + lo_labs + (r,), ("join", lnode, ("leaf", r), None), lp))
                         bins.append((("join'",) + lo_labs + (r,), ("join", ("leaf", r), lnode, None), lp))
+        if eng == "sq":
+            PQ = ("lt", ("ref", "a"), ("ref", "d"))
+            for lo_labs, lnode, lp in [((), ("leaf", "X"), templates.P())] + list(
+                    templates.unary_sequences(("leaf", "X"), LEAFCOLS, 1, "std", labels=("sel a>k", "dedup", "proj a"))):
+                for pred in (PQ, ("plit", False), ("or", PQ, ("plit", False)), None):
+                    bins.append((("xjoin",) + lo_labs, ("join", lnode, ("leaf", "Q"), pred), lp))
+                    bins.append((("xjoin'",) + lo_labs, ("join", ("leaf", "Q"), lnode, pred), lp))
         for labs, node, p in bins:
             add(eng, node, p, labs, nn=3 if (labs[0].startswith("join") and len(labs) == 2) else n)
             try:
